@@ -2,6 +2,7 @@
 from . import plugins as P
 
 GAPS = [0, 0, 1, 2, 5, 40, 1500, 3000]
+EPOCH_NS = 1_700_000_000_000_000_037
 
 
 def gen_rows(r, n, disjoint=True, t0=0, long_rows=False, vmax=50):
@@ -90,9 +91,11 @@ def gen_graph(r, n_derived=(1, 5), n_sources=(1, 2), kinds=KINDS_ALL, n_rows=(0,
     ns = r.randint(*n_sources)
     nodes, types, kind_of, disjoint, all_rows = [], [], {}, {}, []
     src_rows = []
+    # real data carries epoch-scale nanosecond timestamps (beyond 2**53): a quarter of the workloads do too
+    t_base = EPOCH_NS if r.random() < 0.25 else 0
     for i in range(ns):
         dj = r.random() < 0.7 if disjoint_sources is None else disjoint_sources
-        rows = gen_rows(r, r.randint(*n_rows), disjoint=dj, long_rows=r.random() < long_rows_p)
+        rows = gen_rows(r, r.randint(*n_rows), disjoint=dj, long_rows=r.random() < long_rows_p, t0=t_base)
         src_rows.append((dj, rows))
         all_rows.append(rows)
     start, end = run_span(all_rows, r)
